@@ -6,7 +6,7 @@ cd /verif || exit 3
 TIER=${1:-quick}; shift
 IDS=${*:-"C01 C02 C03 C04 C05 C06 C07 C08 C09 C10 C11 C12 C13 C14 C15 C16 C17 C18 C19 C20"}
 if [ -n "$(git -C /repo status --porcelain)" ]; then echo "/repo is not clean"; exit 3; fi
-rm -f replays/*.json
+find replays -name "*.json" ! -name "known-*" -delete
 bad=0
 for id in $IDS; do
   out=$(./check $id $TIER 2>&1); rc=$?
